@@ -45,6 +45,7 @@ ASSUMPTIONS = [
     'gradients returned together with a non-finite score are not compared '
     '(chi documents no value for them)',
     'reference integrator behind myokit.Simulation for the SBML family',
+    "a result that is a view of the caller's own argument (pooled models) is not held: it changes when the caller overwrites its argument",
 ]
 ANCHORS = [
     'chi._log_pdfs.LogLikelihood.__call__',
